@@ -143,6 +143,13 @@ def std_transfer(I, fr, t, c, pth):
                 return True
         return False
 
+    # ------------------------------------------------------------------ inclusive ranges
+    if (d.startswith('std::ops::RangeInclusive::<Idx>::new') or res.startswith('std::ops::RangeInclusive::<Idx>::new')) and len(args) == 2:
+        a, b = as_int(fr.operand(args[0])), as_int(fr.operand(args[1]))
+        if a is not None and b is not None:
+            fr.storev(dest, RangeIt(a, max(a, b + 1)))
+            return True
+        return False
     # ------------------------------------------------------------------ iterator sources
     if name in ('iter',) and res.startswith('core::slice::<impl [T]>::iter'):
         s = seq_of(I, fr, args[0])
@@ -432,6 +439,23 @@ def std_transfer(I, fr, t, c, pth):
         v = seq_of(I, fr, args[0])
         if isinstance(v, Agg):
             fr.storev(dest, Int(int(not v.items), 1))
+            return True
+        return False
+    if name in ('split_last', 'split_first') and res.startswith('core::slice::<impl [T]>::split_') and len(args) == 1:
+        v = seq_of(I, fr, args[0])
+        if isinstance(v, Agg):
+            if not v.items:
+                fr.storev(dest, Opt('none', TOP))
+            elif name == 'split_last':
+                fr.storev(dest, Opt('some', Agg([v.items[-1], Agg(v.items[:-1])])))
+            else:
+                fr.storev(dest, Opt('some', Agg([v.items[0], Agg(v.items[1:])])))
+            return True
+        return False
+    if name in ('first', 'last') and res.startswith('core::slice::<impl [T]>::') and len(args) == 1:
+        v = seq_of(I, fr, args[0])
+        if isinstance(v, Agg):
+            fr.storev(dest, Opt('some', v.items[0 if name == 'first' else -1]) if v.items else Opt('none', TOP))
             return True
         return False
     if name == 'split_at' and res.startswith('core::slice::<impl [T]>::split_at') and len(args) == 2:
